@@ -288,7 +288,7 @@ fn apply_real(e: Exec, op: &BOp, env: &Env, files: &mut Files) -> Exec {
 }
 
 /// Run a finished Exec with a terminator; returns Err(panic message) or the report.
-fn run_term(e: Exec, t: Term, prefix: &std::path::Path) -> Result<Option<Report>, String> {
+fn run_term(e: Exec, t: Term, prefix: &std::path::Path, detached: bool) -> Result<Option<Report>, String> {
     PANIC_MSG.with(|m| *m.borrow_mut() = None);
     let r = catch_unwind(AssertUnwindSafe(|| -> Result<(), String> {
         match t {
@@ -335,7 +335,8 @@ fn run_term(e: Exec, t: Term, prefix: &std::path::Path) -> Result<Option<Report>
     match r {
         Err(_) => Err(PANIC_MSG.with(|m| m.borrow_mut().take()).unwrap_or_else(|| "panic".into())),
         Ok(Err(e)) => Err(format!("error: {}", e)),
-        Ok(Ok(())) => Ok(read_reports(prefix, 1, 10_000).into_iter().next()),
+        // a non-detached child has exited by the time the terminator returns: its report is there
+        Ok(Ok(())) => Ok(read_reports(prefix, 1, if t == Term::Communicate || detached { 10_000 } else { 1_000 }).into_iter().next()),
     }
 }
 
@@ -460,6 +461,7 @@ pub fn check_case(ctx: &Ctx, case: &BuilderCase, rep: &mut CaseReport) -> CaseRe
         };
         let mut files = Files { stdin_file: None, stdout_file: None, stderr_file: None };
         let mut side: Vec<(Exec, Model, (Option<(u64, u64)>, Option<(u64, u64)>, Option<(u64, u64)>))> = vec![];
+        let detached_any = case.ops.iter().any(|o| matches!(o, BOp::Detached));
         let mut kinds: std::collections::BTreeSet<&'static str> = Default::default();
         let mut removed: Vec<Bytes> = vec![];
         let mut cleared = false;
@@ -550,7 +552,7 @@ pub fn check_case(ctx: &Ctx, case: &BuilderCase, rep: &mut CaseReport) -> CaseRe
             let ps = prefix.to_string_lossy().into_owned();
             set_mode(&bindir, "report", &[&ps, "0", "readstdin"]);
             let expect = m.terminate(t);
-            let (got, deadlock) = crate::hang::guard(|| run_term(e, t, &prefix));
+            let (got, deadlock) = crate::hang::guard(|| run_term(e, t, &prefix, detached_any));
             reap_all();
             if let Some(d) = deadlock {
                 return Err(Fail::new("C16:terminator-hangs", format!("[{}] terminator {:?} never returns (model: {}): {}", which, t, if expect.is_err() { "must be refused" } else { "runs" }, d)));
